@@ -46,6 +46,11 @@ func c06(r *sim.R) *sim.Violation {
 	dir := dbcheck.DayPath(rel, vIface, vDay, names[0])
 	files := wd.fs.Files(tree, dir)
 	sort.Strings(files)
+	wd.fs.Restart("r")
+	extents, xerr := dbcheck.BlockExtents(rdb+"/"+vIface, vDay, names[0])
+	if xerr != nil {
+		panic(simfs.HarnessError{Msg: "victim day unreadable before the damage: " + xerr.Error()})
+	}
 	metaDamaged := false
 	var what []string
 	// damageOne damages one file of the victim day (kind and position drawn)
@@ -60,7 +65,31 @@ func c06(r *sim.R) *sim.Violation {
 			return
 		}
 		kind := ""
-		switch t.Draw(8) {
+		switch t.Draw(10) {
+		case 8, 9:
+			// a stored block's first bytes (bit-pack width / frame header of a block), not a
+			// uniformly drawn position: one flipped bit or a zeroed byte
+			ext := extents[f[strings.LastIndex(f, "/")+1:]]
+			if len(ext) == 0 || isMeta {
+				kind = "untouched"
+				break
+			}
+			e := ext[t.Draw(len(ext))]
+			if e[1] == 0 || e[0] >= len(b) {
+				kind = "untouched"
+				break
+			}
+			pos := e[0] + t.Draw(min(e[1], 3))
+			if pos >= len(b) {
+				pos = e[0]
+			}
+			if t.Bool() {
+				b[pos] ^= 1 << uint(t.Draw(8))
+				kind = "bit flip at the start of a block"
+			} else {
+				b[pos] = 0
+				kind = "zeroed byte at the start of a block"
+			}
 		case 0:
 			n := 0
 			if len(b) > 0 {
@@ -105,6 +134,9 @@ func c06(r *sim.R) *sim.Violation {
 		default:
 			b = append(b, t.Bytes(1+t.Draw(200), 2)...)
 			kind = "trailing garbage"
+		}
+		if kind == "untouched" {
+			return
 		}
 		if kind != "deleted" {
 			if isMeta {
